@@ -165,7 +165,12 @@ func HarnessC12History(st any) {
 				req2 := c12Request(shDirect, 7)
 				cc := c.CloneWith(richRecorder(g2), req2)
 				sym.Assert(cc.Request() == req2 && cc.Pattern() == wantPattern && cc.Param("id") == wantID, "CloneWith carries the route and parameters with the new request")
+				sym.Assert(cc.QueryParam("q") == tok("q", 7) && cc.Header("X-Tok") == tok("h", 7), "CloneWith shows the query and headers of the request it was given")
 				cc.Close()
+				// the usual writer-wrapping middleware pattern: same request, another writer
+				cs := c.CloneWith(richRecorder(g2), c.Request())
+				sym.Assert(cs.Request() == req && cs.QueryParam("q") == tok("q", i) && cs.QueryParams().Get("q") == tok("q", i) && cs.Header("X-Tok") == tok("h", i) && cs.Param("id") == wantID, "CloneWith with the same request shows the current request's data")
+				cs.Close()
 				sym.Cover("CloneWith in a handler")
 				// CloneWith / Lookup handed the router's own writer: a Clone of that context shows the current response
 				cw := c.CloneWith(c.Writer(), req2)
